@@ -22,7 +22,8 @@ from vlib import Check, Broken, log
 import checks.c08 as c08
 
 QUICK_CLASSES = ["Db", "DbGrid", "Model", "NeighMoving", "Vario", "Polygons", "Table"]
-ALL_CLASSES = c08.QUICK_CLASSES + c08.MORE_CLASSES
+# (RuleShift and FracEnviron have no loader that accepts their own files: nothing to corrupt)
+ALL_CLASSES = [c for c in c08.QUICK_CLASSES + c08.MORE_CLASSES if c not in ("RuleShift", "FracEnviron")]
 
 ASAN_ENV = {"ASAN_OPTIONS": "abort_on_error=1:detect_leaks=0:allocator_may_return_null=0:max_allocation_size_mb=1024:"
                             "handle_abort=0:print_summary=1:symbolize=0:malloc_context_size=2:fast_unwind_on_malloc=1:detect_odr_violation=0",
@@ -33,54 +34,51 @@ ASAN_ENV = {"ASAN_OPTIONS": "abort_on_error=1:detect_leaks=0:allocator_may_retur
 TLC_JAVA = "-Xmx8g -XX:+UseParallelGC -Xss64m"
 
 
-def use_asan():
-    return os.environ.get("VERIF_C09_NOASAN", "") == ""
-
-
-def build_asan_lib():
-    t0 = time.time()
-    r = subprocess.run([os.path.join(vlib.VERIF, "tools", "build_asan.sh")], capture_output=True, text=True,
-                       env=dict(os.environ, VERIF_REPO=vlib.REPO))
-    if r.returncode != 0:
-        raise Broken("sanitizer build of the library failed:\n" + r.stderr[-4000:])
-    d = r.stdout.strip().splitlines()[-1]
-    log("[build] sanitizer lib ok in %.1fs (%s)" % (time.time() - t0, d))
-    return d
+use_asan = c08.use_asan
+build_asan_lib = c08.build_asan_lib
 
 
 def build_fault_harness():
     """nf_fault linked against the sanitizer build (or the normal build with VERIF_C09_NOASAN=1)"""
-    if not use_asan():
-        return vlib.build_harness("nf_fault")
-    lib = build_asan_lib()
-    os.makedirs(vlib.BIN, exist_ok=True)
-    tag = "" if vlib.REPO == "/repo" else "-" + hashlib.md5(vlib.REPO.encode()).hexdigest()[:8]
-    src = os.path.join(vlib.HARNESS, "nf_fault.cpp")
-    out = os.path.join(vlib.BIN, "nf_fault_asan" + tag)
-    deps = [src, os.path.join(lib, "Release", "libgstlearn.so"), os.path.join(vlib.REPO, "include")] + \
-           [os.path.join(vlib.HARNESS, f) for f in os.listdir(vlib.HARNESS) if f.endswith(".hpp")]
-    if os.path.exists(out) and os.path.getmtime(out) >= vlib._newest_mtime(deps):
-        return out
-    t0 = time.time()
-    cmd = ["g++", "-std=c++20", "-O1", "-g1", "-w", "-DGSTLEARN_VERIF", "-fsanitize=address,undefined", "-fno-sanitize=vptr",
-           "-fno-omit-frame-pointer", "-I" + os.path.join(vlib.REPO, "include"), "-I" + lib, "-I/usr/include/eigen3",
-           "-I" + vlib.HARNESS, src, "-o", out + ".tmp%d" % os.getpid(), "-L" + os.path.join(lib, "Release"), "-lgstlearn",
-           "-Wl,-rpath," + os.path.join(lib, "Release")]
-    r = subprocess.run(cmd, capture_output=True, text=True)
-    if r.returncode != 0:
-        raise Broken("harness nf_fault (sanitizer) does not compile:\n" + r.stderr[-4000:])
-    os.replace(out + ".tmp%d" % os.getpid(), out)
-    log("[build] harness nf_fault (sanitizer) ok in %.1fs" % (time.time() - t0))
-    return out
+    return c08.build_asan_harness("nf_fault") if use_asan() else vlib.build_harness("nf_fault")
 
 
-def render(lines, newline_at_end=True):
-    """text of a file of the model: tokens separated by one blank, '#' followed by a one-word title"""
+def render(lines, newline_at_end=True, cls=""):
+    """text of a file of the model: tokens separated by one blank, '#' followed by a one-word title (neutral files);
+    cells separated by commas (CSV); tokens separated by one blank (files of the grid exchange formats)"""
     out = []
     for l in lines:
-        out.append(" ".join(("# t" if t == "#" else t) for t in l))
+        if cls == "CSV":
+            out.append(",".join(l))
+        elif cls == "Raw":
+            out.append(" ".join(l))
+        else:
+            # ("*": a value that the model leaves open -- the mean / variance of an anamorphosis -- any number will do)
+            out.append(" ".join(("# t" if t == "#" else "0" if t == "*" else t) for t in l))
     text = "\n".join(out)
     return text + ("\n" if newline_at_end else "")
+
+
+CSV_FORMAT = {"header": True, "skip": 0, "sep": ",", "dec": ".", "na": "NA", "rank": False}
+
+
+def file_record(e, fid, bases, text=None):
+    """record given to nf_fault for one faulty file emitted by TLC"""
+    b = bases[e["base"]]
+    c = e["c"]
+    rec = dict(e, id=fid, ndim=base_ndim(b))
+    if c == "Raw":
+        rec["c"] = b["fmt"]
+        rec["pc"] = "DbGrid"
+        rec["text"] = text if text is not None else render(e["lines"], e["kind"] != "trunc", "Raw")
+    elif c == "CSV":
+        rec["pc"] = "Db"
+        rec["csv"] = CSV_FORMAT
+        rec["text"] = text if text is not None else render(e["lines"], e["kind"] != "trunc", "CSV")
+    else:
+        rec["pc"] = c
+        rec["text"] = text if text is not None else render(e["lines"], e["kind"] != "trunc")
+    return rec
 
 
 def choose_bases(ck, classes, level, nbase, rng, workers):
@@ -99,7 +97,7 @@ def choose_bases(ck, classes, level, nbase, rng, workers):
         raise Broken("MC_NeutralFile reports an error:\n" + res.violation)
     by = collections.defaultdict(list)
     for e in res.emitted:
-        if e["rt"] and e["rw"] and e["ideal"] and not e["ev"]:
+        if e["ideal"]:
             by[e["c"]].append(e)
     chosen = []
     for c in classes:
@@ -226,8 +224,10 @@ def sanitizer_kind(msgs):
 
 
 COUNT_EVENTS = {"allocNegative", "allocHuge", "allocUnbounded", "loopUnbounded"}
-PRED_ORDER = ["vecOverflow", "writeUnsized", "useAfterClear", "count", "gridSizeMismatch", "badEnum", "badDims", "emptyPolyline"]
-DEATH_PREDS = {"vecOverflow", "writeUnsized", "useAfterClear", "count", "gridSizeMismatch", "badEnum", "badDims"}
+PRED_ORDER = ["vecOverflow", "writeUnsized", "useAfterClear", "count", "gridSizeMismatch", "badEnum", "badDims", "badIndex", "badGrid",
+              "badRuleNodes", "emptyHermite", "namesMismatch", "nameHash", "emptyPolyline"]
+DEATH_PREDS = {"vecOverflow", "writeUnsized", "useAfterClear", "count", "gridSizeMismatch", "badEnum", "badDims", "badIndex", "badGrid",
+               "badRuleNodes", "emptyHermite", "namesMismatch"}
 LENIENT_ORDER = ["dbPartIgnored", "uninitReturn", "wordAsZero", "eofDefault"]
 
 
@@ -319,37 +319,95 @@ def run(tier):
         raise
 
 
+F2G_VALID = ("F2G_DIM 2\nF2G_VERSION 1\nF2G_LOCATION 0 0 0\nF2G_ROTATION 0\nF2G_ORIGIN 0 0\nF2G_NB_NODES 3 2\nF2G_LAGS 1 0.5\n"
+             "F2G_ORDER +Y +X +Z\nF2G_NB_VARIABLES 1\nF2G_VARIABLE_1 v\nF2G_UNDEFINED_1 -999\nF2G_VALUES\n1 2 -999 4 5.5 6\n")
+
+
+def exchange_files(ck):
+    """valid files of the grid exchange formats, written by the real writers (GridZycor, GridIfpEn, GridBmp) from a small
+    grid, plus a hand-made F2G file (that format has a reader only)"""
+    exe = vlib.build_harness("nf_run")
+    w = ck.work
+    grid = {"ndim": 2, "nx": [3, 2], "x0": ["0", "-1"], "dx": ["1", "0.5"], "angles": ["0", "0"], "ncol": 1, "nech": 6,
+            "locators": ["z1"], "names": [["v"]], "rows": [["1"], ["2"], ["NA"], ["4"], ["1.23456789012345"], ["-6"]]}
+    cases = [{"id": i + 1, "c": c, "o": grid, "cfg": 0, "keep_text": True} for i, c in enumerate(["GridZycor", "GridIfpEn", "GridBmp"])]
+    cp, op = os.path.join(w, "xcases.ndjson"), os.path.join(w, "xobs.ndjson")
+    vlib.write_ndjson(cp, cases)
+    tmp = os.path.join(w, "xtmp")
+    os.makedirs(tmp, exist_ok=True)
+    vlib.run_harness(exe, [cp, op, tmp], timeout=600)
+    out = {}
+    for o in vlib.read_ndjson(op):
+        c = cases[o["id"] - 1]["c"]
+        if not o.get("dump") or "hex" not in o:
+            raise Broken("the writer of %s did not produce a file" % c)
+        out[c[4:]] = bytes.fromhex(o["hex"])
+    out["F2G"] = F2G_VALID.encode()
+    return out
+
+
 def _run(ck, tier):
     vlib.build_lib()
     rng = random.Random(vlib.seed() * 104729 + 9)
     workers = int(os.environ.get("VERIF_TLC_WORKERS", "8"))
     if tier == "quick":
-        classes, level, nbase = QUICK_CLASSES, 1, 5
+        classes, level, nbase = QUICK_CLASSES + ["CSV"], 1, 5
     else:
-        classes, level, nbase = ALL_CLASSES, 1, 12
+        classes, level, nbase = ALL_CLASSES + ["CSV"], 1, 12
     picks = choose_bases(ck, classes, level, nbase, rng, workers)
+    # valid files of the text grid exchange formats: the fault layer applies to their lines of tokens (class "Raw")
+    xfiles = exchange_files(ck) if tier == "thorough" else {}
+    raw_fmt = {}
+    for fmt in ("Zycor", "IfpEn", "F2G"):
+        if fmt in xfiles:
+            lines = [l.split() for l in xfiles[fmt].decode("latin1").split("\n")]
+            while lines and not lines[-1]:
+                lines.pop()
+            picks.append({"c": "Raw", "s": 0, "d": [], "lines": lines})
+            raw_fmt[len(picks)] = fmt
+    for p in picks:
+        p.setdefault("lines", [])
     bases, faults, res = fault_model(ck, picks, level, workers)
+    for k, b in bases.items():
+        if b["c"] == "Raw":
+            b["fmt"] = raw_fmt[k]
     files = []
     fid = 0
     for e in faults:
         fid += 1
-        files.append(dict(e, id=fid, pc=e["c"], ndim=base_ndim(bases[e["base"]]), text=render(e["lines"], newline_at_end=(e["kind"] != "trunc"))))
+        files.append(file_record(e, fid, bases))
     nbytes = 0
+    import base64
     if tier == "thorough":
-        # every byte prefix of every valid file
+        # every byte prefix of every valid file (rendered from the model; as written by the library for the exchange formats)
         for b in sorted(bases.values(), key=lambda b: b["base"]):
-            text = render(b["lines"])
+            text = render(b["lines"], True, b["c"])
             for k in range(0, len(text)):
                 fid += 1
                 nbytes += 1
-                files.append({"id": fid, "c": b["c"], "pc": b["c"], "ndim": base_ndim(b), "kind": "truncbyte", "k": k, "t": "", "base": b["base"], "text": text[:k],
-                              "verdict": "?", "unsafe": [], "rev": []})
+                files.append(file_record({"base": b["base"], "c": b["c"], "kind": "truncbyte", "k": k, "t": "", "verdict": "?", "unsafe": [], "rev": []},
+                                         fid, bases, text=text[:k]))
+        # binary format (BMP): every byte prefix, every byte of the first 64 set to 0x00 / 0xFF
+        if "Bmp" in xfiles:
+            data = xfiles["Bmp"]
+            muts = [data[:k] for k in range(len(data))]
+            for k in range(min(64, len(data))):
+                for v in (0, 255):
+                    if data[k] != v:
+                        muts.append(data[:k] + bytes([v]) + data[k + 1:])
+            for i, m in enumerate(muts):
+                fid += 1
+                nbytes += 1
+                files.append({"id": fid, "c": "Bmp", "pc": "DbGrid", "ndim": 2, "kind": "truncbyte" if i < len(data) else "corruptbyte", "k": i, "t": "",
+                              "base": 0, "text": "", "b64": base64.b64encode(m).decode(), "verdict": "?", "unsafe": [], "rev": []})
     # the valid files themselves must load (sanity of the binding)
     valid = []
     for b in sorted(bases.values(), key=lambda b: b["base"]):
         fid += 1
-        valid.append({"id": fid, "c": b["c"], "pc": b["c"], "ndim": base_ndim(b), "kind": "valid", "k": 0, "t": "", "base": b["base"], "text": render(b["lines"]),
-                      "verdict": "MaySucceed", "unsafe": [], "rev": []})
+        v = file_record({"base": b["base"], "c": b["c"], "kind": "valid", "k": 0, "t": "", "verdict": "MaySucceed", "unsafe": [], "rev": []},
+                        fid, bases, text=render(b["lines"], True, b["c"]))
+        v["realok"] = b.get("realok", True) and not (b["c"] == "Raw" and b["fmt"] == "F2G")
+        valid.append(v)
     t0 = time.time()
     outs, sani = run_loader(ck, files + valid, "main")
     log("[C09] %d files loaded by the real loaders in child processes in %.1fs" % (len(files) + len(valid), time.time() - t0))
@@ -357,14 +415,16 @@ def _run(ck, tier):
     # message are not outcomes of the loader: those files are loaded again
     def runtime_death(f):
         o = outs[f["id"]]
-        if o["outcome"] not in ("crash", "oom"):
+        if o["outcome"] != "crash":
             return False
         msgs = " ".join(m for _, m in sani.get(f["id"], []))
         return "Failed to mmap" in msgs or "failed to allocate" in msgs or not sanitizer_kind(sani.get(f["id"], []))
+    nprev = None
     for attempt in range(4):
         retry = [f for f in files + valid if runtime_death(f)]
-        if not retry:
+        if not retry or (nprev is not None and len(retry) >= nprev):
             break
+        nprev = len(retry)
         log("[C09] %d children died in the sanitizer runtime / without message: loaded again (pass %d)" % (len(retry), attempt + 2))
         time.sleep(3)
         o2, s2 = run_loader(ck, retry, "retry%d" % attempt, batch=20, nproc=6)
@@ -406,7 +466,9 @@ def _run(ck, tier):
         log("[C09] %d deaths not predicted by the transcription run again: %d confirmed, %d transient" % (len(unexp), nconf, transient))
     ck.cov["transient_deaths_ignored"] = transient
     for v in valid:
-        if outs[v["id"]]["outcome"] != "ok":
+        o = outs[v["id"]]
+        # (what the library does with the object AFTER loading it is judged like any other outcome)
+        if v["realok"] and (o["outcome"] == "fail" or (o["outcome"] != "ok" and o.get("stage", "load") == "load")):
             raise Broken("a valid file of the model is not loaded by the real library: %s -> %s %s" %
                          (v["text"][:300], outs[v["id"]], sani.get(v["id"])))
     stats = evaluate(ck, files + valid, outs, sani, "main")
